@@ -1,8 +1,8 @@
 package nc
 
 import (
-	"go/types"
 	"fmt"
+	"go/types"
 	"strings"
 
 	"golang.org/x/tools/go/ssa"
@@ -80,6 +80,8 @@ func rulesC17(c *Ctx) {
 	c.c17ClientReadsWholeBody()
 	R.Rule("R8", "melt reconciliation is complete: for every melt quote not yet recorded PAID a PAID answer removes its pending record and an UNPAID answer gives its pending proofs back", 2)
 	c.c17ReconcileComplete()
+	R.Rule("R10", "a refusal by the mint or a failed step is never taken for success: in the wallet, its network client and its storage the error of every call is tested nil, classified or handed on before any return that may report success (sites where continuing is intended are a frozen table)", 70)
+	c.ruleErrorDisciplinePkgs("R10", []string{"wallet", "wallet/*"}, errToleratedWallet, 70)
 	R.Rule("R3", "balances are whole-bucket sums", 3)
 	R.Rule("R4", "active-keyset refresh writes the mint entry back", 2)
 	R.Rule("R5", "the wallet's fee functions agree with the mint's: one ceil over the summed per-proof ppk of each proof's own keyset (shared with C18.R3)", 2)
@@ -623,7 +625,9 @@ func rulesC18(c *Ctx) {
 		for _, g := range c.OpFuncs(f) {
 			for _, ci := range Calls(g) {
 				if c.P.Describe(ci).Name == "wallet.feesForProofs" {
-					ok, why := c.RequireAt(ci, &Cond{Name: "fees requested", Match: func(ft *Fact, _ *Origins) bool { return ft.Kind == "bool" && ft.Pos && ft.A.String() == "P:includeFees" }})
+					ok, why := c.RequireAt(ci, &Cond{Name: "fees requested", Match: func(ft *Fact, _ *Origins) bool {
+						return ft.Kind == "bool" && ft.Pos && ft.A.String() == "P:includeFees"
+					}})
 					R.Check("R1", fk, "fees counted <= fees requested", c.P.InstrPos(ci), ok, "fees are added only when the caller asked for them", why)
 				}
 			}
